@@ -12,11 +12,12 @@ import z3
 
 
 class Sym:
-    __slots__ = ("t", "k")
+    __slots__ = ("t", "k", "np")
 
-    def __init__(self, t, k):
+    def __init__(self, t, k, np=False):
         self.t = t
         self.k = k
+        self.np = np     # a boolean known to be a numpy.bool_ (result of a numpy predicate): not an instance of bool
 
     def __repr__(self):
         return f"Sym<{self.k}:{self.t}>"
